@@ -412,8 +412,13 @@ CLAIMED["C04"] = {
             "and without the spend tx), a justice transaction assembled like the breach arbitrator, EVERY input run "
             "through the real txscript engine against the real revoked outputs (~5 800 inputs per quick run), the "
             "second-level variant, GetStateNumHint == height, and the revocation-log record vs the actual transaction; "
-            "model revocation-log entries and retribution lists compared with the observed ones (vm_compute).",
-    "note": _PUNISH_NOTE + " State-hint round trip is checked on the implementation only (no Coq theorem).",
+            "model revocation-log entries and retribution lists compared with the observed ones (vm_compute). State hint "
+            "(Channel/StateHint.v, exact uint32/uint64 bit ops): the 48-bit hint (height XOR obfuscator split into "
+            "nSequence = 0x80||upper 24 bits and nLockTime = 2^29 + lower 24 bits) is accepted exactly for heights < 2^48, "
+            "decodes back to the height, leaves the sequence lock disabled and the locktime a past timestamp, and is "
+            "injective per channel; tied on every captured commitment plus 324 boundary probes of the real "
+            "SetStateNumHint/GetStateNumHint.",
+    "note": _PUNISH_NOTE + " Obfuscator derivation (sha256) not modelled.",
     "technique": "Coq invariant proof (ghost-history wrapper over the resync machine) + Coq script-interpreter theorems "
                  "over regenerated templates (T1) + differential harness with the real NewBreachRetribution and script engine",
 }
@@ -431,9 +436,14 @@ CLAIMED["C05"] = {
             "tip, reloaded channels) of seeded schedules on two real LightningChannels: own signed commitment vs the "
             "funding output, NewLocalForceCloseSummary / NewUnilateralCloseSummary (current and pending), every "
             "SignedTimeoutTx/SignedSuccessTx and every sweep run through the real txscript engine (~2 300 close reports, "
-            "~2 900 HTLC resolutions per quick run); resolutions and claimable totals compared with the model.",
-    "note": _PUNISH_NOTE + " C05_htlc_sig_index (sort-key statement) not proved: exercised through duplicate HTLCs "
-            "and the engine's check of the counterparty's HTLC signatures.",
+            "~2 900 HTLC resolutions per quick run); resolutions and claimable totals compared with the model. HTLC "
+            "signature index (Channel/CommitSort.v on real pkScript bytes): both parties build the same BIP69+CLTV-ordered "
+            "transaction (the sort has one possible result), assign every non-dust HTLC incl. exact duplicates the same "
+            "distinct output, and the signer's HTLC-signature send order equals the verifier's consumption order "
+            "(C05_commit_sort_canonical, C05_htlc_sig_index, under pk_facts evaluated on every observed commitment); tied "
+            "on ~240 signed commitments per quick run on both sides incl. the real signature consumption order.",
+    "note": _PUNISH_NOTE + " pk_facts (equal HTLC scripts imply equal payment hash; offered script never equals "
+            "received script) is a stated hypothesis of C05_htlc_sig_index, checked on the real script bytes of every case.",
     "technique": "Coq proof (ledger equations on the channel model, script-interpreter theorems over regenerated "
                  "templates) + differential harness with real force-close summaries and the real script engine",
 }
